@@ -271,3 +271,440 @@ Proof.
   intros k. cbn [lb lt bips]. rewrite Hgb, Hgt, ipw_key by auto. destruct (Hg k). specialize (Hw k).
   rewrite ipw_key in Hw by auto. destruct (k =? net_key a); lia.
 Qed.
+
+(* ================= the bag of tracked records of one bucket ================= *)
+
+Definition bidx (self_id id : N) : nat := bucket_index (logdist self_id id).
+Definition trecs (b : bucket) : list rec := map n_rec (entries b) ++ map n_rec (repl b).
+
+Definition rec_ok (self_id : N) (i : nat) (r : rec) : Prop :=
+  bidx self_id (r_id r) = i /\ r_id r <> self_id /\ addable (r_ip r) = true.
+
+Definition Bag (self_id : N) (i : nat) (l : list rec) : Prop :=
+  (forall r, In r l -> rec_ok self_id i r) /\ NoDup (map r_id l).
+
+Lemma bag_perm s i l l' : Permutation l l' -> Bag s i l -> Bag s i l'.
+Proof.
+  intros Hp [H1 H2]. split.
+  - intros r Hr. apply H1. eapply Permutation_in; [symmetry; exact Hp|exact Hr].
+  - eapply Permutation_NoDup; [apply Permutation_map; exact Hp|exact H2].
+Qed.
+
+Lemma bag_delete s i o X :
+  Bag s i (o :: X) -> Bag s i X /\ rec_ok s i o /\ ~ In (r_id o) (map r_id X).
+Proof.
+  intros [H1 H2]. cbn [map] in H2. inversion H2 as [|? ? Hn Hd]; subst.
+  split; [split; [intros r Hr; apply H1; right; exact Hr|exact Hd]|].
+  split; [apply H1; left; reflexivity|exact Hn].
+Qed.
+
+Lemma bag_insert s i nw X :
+  Bag s i X -> rec_ok s i nw -> ~ In (r_id nw) (map r_id X) -> Bag s i (nw :: X).
+Proof.
+  intros [H1 H2] Hok Hn. split.
+  - intros r [<-|Hr]; auto.
+  - cbn [map]. constructor; assumption.
+Qed.
+
+Lemma cntr_in k r l : In r l -> ipw (r_ip r) k <= cntr k l.
+Proof.
+  induction l as [|x l IH]; [intros []|]. cbn [cntr]. intros [->|H]; [lia|].
+  specialize (IH H). lia.
+Qed.
+
+Lemma perm_mid {A} (a b c : list A) x : Permutation ((a ++ x :: b) ++ c) (x :: (a ++ b) ++ c).
+Proof.
+  rewrite <- !app_assoc. cbn [app]. symmetry. apply Permutation_middle.
+Qed.
+
+Lemma perm_mid2 {A} (e a b : list A) x : Permutation (e ++ a ++ x :: b) (x :: e ++ a ++ b).
+Proof.
+  rewrite !app_assoc. symmetry. apply Permutation_middle.
+Qed.
+
+Lemma has_id_true id n : has_id id n = true <-> n_id n = id.
+Proof. unfold has_id. apply N.eqb_eq. Qed.
+
+Lemma not_in_ids id (l : list tnode) :
+  (forall x, In x l -> has_id id x = false) -> ~ In id (map r_id (map n_rec l)).
+Proof.
+  intros H Hin. rewrite map_map in Hin. apply in_map_iff in Hin. destruct Hin as (x & Hx & Hi).
+  specialize (H x Hi). unfold has_id, n_id in H. rewrite Hx in H. lia.
+Qed.
+
+Lemma contains_id_false l id :
+  contains_id l id = false -> forall x, In x l -> has_id id x = false.
+Proof.
+  unfold contains_id. intros H x Hx. destruct (has_id id x) eqn:E; [|reflexivity].
+  assert (existsb (has_id id) l = true) by (apply existsb_exists; eauto). congruence.
+Qed.
+
+(* structural invariant of one bucket *)
+Record BS (self_id : N) (i : nat) (b : bucket) : Prop := {
+  bs_len_e : (length (entries b) <= 16)%nat;
+  bs_len_r : (length (repl b) <= 10)%nat;
+  bs_bag : Bag self_id i (trecs b);
+  bs_nonfull : (length (entries b) < 16)%nat -> repl b = [];
+  bs_rl_e : forall n, In n (entries b) -> n_rl n <> 0;
+  bs_rl_r : forall n, In n (repl b) -> n_rl n = 0
+}.
+
+Definition LInv (self_id : N) (i : nat) (rest : N -> N) (L : lst) : Prop :=
+  BS self_id i (lb L) /\ CS L (fun k => cntr k (trecs (lb L))) rest.
+
+Lemma LInv_bound s i rest L k :
+  LInv s i rest L -> cntr k (trecs (lb L)) <= 2 /\ rest k + cntr k (trecs (lb L)) <= 10.
+Proof.
+  intros [_ (Hb & Ht & Hg)]. destruct (Hg k) as [<- <-].
+  split; apply ns_ok_get; assumption.
+Qed.
+
+(* ================= bumpInBucket ================= *)
+
+Lemma replace_entry s i b l1 n l2 n' r bips' :
+  BS s i b -> entries b = l1 ++ n :: l2 -> r = repl b ->
+  n_id n' = n_id n -> addable (n_ip n') = true -> n_rl n' <> 0 ->
+  BS s i (mkB (l1 ++ n' :: l2) r bips') /\
+  forall k, cntr k (trecs (mkB (l1 ++ n' :: l2) r bips')) + ipw (n_ip n) k
+            = cntr k (trecs b) + ipw (n_ip n') k.
+Proof.
+  intros HS He -> Hid Hadd Hrl.
+  set (X := (map n_rec l1 ++ map n_rec l2) ++ map n_rec (repl b)).
+  assert (P1 : Permutation (trecs b) (n_rec n :: X)).
+  { unfold trecs. rewrite He, map_app. cbn [map]. apply perm_mid. }
+  assert (P2 : Permutation (trecs (mkB (l1 ++ n' :: l2) (repl b) bips')) (n_rec n' :: X)).
+  { unfold trecs. cbn [entries repl]. rewrite map_app. cbn [map]. apply perm_mid. }
+  destruct (bag_delete s i _ _ (bag_perm _ _ _ _ P1 (bs_bag _ _ _ HS))) as (HX & (Hi & Hs & _) & Hn).
+  split.
+  - constructor; cbn [entries repl].
+    + pose proof (bs_len_e _ _ _ HS) as H. rewrite He in H. rewrite app_length in *. cbn [length] in *. lia.
+    + apply (bs_len_r _ _ _ HS).
+    + eapply bag_perm; [symmetry; exact P2|]. apply bag_insert; [exact HX| |].
+      * unfold rec_ok. unfold n_id in Hid. rewrite Hid. auto.
+      * unfold n_id in Hid. rewrite Hid. exact Hn.
+    + intros H. apply (bs_nonfull _ _ _ HS). rewrite He. rewrite app_length in *. cbn [length] in *. lia.
+    + intros x Hx. apply in_app_or in Hx. destruct Hx as [Hx|[<-|Hx]]; [|exact Hrl|];
+        apply (bs_rl_e _ _ _ HS); rewrite He; apply in_or_app; [left|right; right]; exact Hx.
+    + apply (bs_rl_r _ _ _ HS).
+  - intros k. rewrite (cntr_perm k _ _ P1), (cntr_perm k _ _ P2). cbn [cntr]. unfold n_ip. lia.
+Qed.
+
+Lemma LInv_set_entries_CS L e w rest : CS L w rest -> CS (set_entries L e) w rest.
+Proof. intros H. exact H. Qed.
+
+Lemma bump_spec s i rest L nr inb L' found ch :
+  LInv s i rest L -> bump_in_bucket L nr inb = (L', found, ch) ->
+  LInv s i rest L' /\ length (entries (lb L')) = length (entries (lb L)) /\
+  repl (lb L') = repl (lb L) /\
+  (found = false -> L' = L /\ find_first (has_id (r_id nr)) (entries (lb L)) = None).
+Proof.
+  intros [HS HC] E. unfold bump_in_bucket in E.
+  destruct (find_first (has_id (r_id nr)) (entries (lb L))) as [n|] eqn:Ef.
+  2:{ injection E as <- <- <-. split; [split; assumption|]. auto. }
+  destruct (find_first_split _ _ _ Ef) as (l1 & l2 & Hl & Hp & _ & _ & Hm).
+  apply has_id_true in Hp.
+  destruct ((r_seq nr <=? r_seq (n_rec n)) && negb inb).
+  { injection E as <- <- <-. split; [split; assumption|]. split; [reflexivity|]. split; [reflexivity|discriminate]. }
+  assert (Hin : In (n_rec n) (trecs (lb L))).
+  { unfold trecs. apply in_or_app. left. apply in_map. rewrite Hl. apply in_or_app. right. left. reflexivity. }
+  destruct (proj1 (bs_bag _ _ _ HS) _ Hin) as (_ & _ & Hadd_old).
+  destruct (negb (ip_eqb (r_ip nr) (n_ip n))) eqn:Eip.
+  - (* the address changed *)
+    destruct (remove_ip_spec L (n_ip n) _ rest HC (fun k => cntr_in k _ _ Hin)) as (Hre & Hrr & HCa).
+    destruct (add_ip (remove_ip L (n_ip n)) (r_ip nr)) as [Lb ok] eqn:Ea.
+    destruct (add_ip_spec _ _ _ _ _ _ HCa Ea) as (Hbe & Hbr & Hok).
+    destruct ok.
+    + destruct Hok as [Hadd HCb]. cbn [negb orb] in E. injection E as <- <- <-.
+      rewrite Hbe, Hre, Hm. cbn [set_entries lb entries repl].
+      destruct (replace_entry s i (lb L) l1 n l2 (mkT nr (n_tok n) 1 (n_checks n) false)
+                  (repl (lb Lb)) (bips (lb Lb)) HS Hl) as [HS' Hc];
+        [congruence|unfold n_id; cbn [n_rec]; symmetry; exact Hp|exact Hadd|cbn; lia|].
+      split; [split; [exact HS'|]|].
+      * apply (LInv_set_entries_CS Lb). eapply CS_ext; [|exact HCb].
+        intros k. cbn beta. unfold set_entries. cbn [lb]. specialize (Hc k). pose proof (cntr_in k _ _ Hin) as Hle.
+        unfold n_ip in *. cbn [n_rec] in Hc. lia.
+      * rewrite Hl, !app_length. cbn [length]. split; [reflexivity|].
+        split; [congruence|discriminate].
+    + (* the new address does not fit: the old one is put back *)
+      cbn [negb] in E.
+      destruct (add_ip_success Lb (n_ip n) _ rest Hok Hadd_old) as [Lc Ec].
+      { destruct (addr_is_lan (n_ip n)) eqn:Elan; [left; reflexivity|right].
+        destruct (LInv_bound s i rest L (net_key (n_ip n)) (conj HS HC)) as [B1 B2].
+        pose proof (cntr_in (net_key (n_ip n)) _ _ Hin) as Hle. unfold n_ip in *.
+        rewrite ipw_key in * by exact Elan. rewrite N.eqb_refl in *. lia. }
+      rewrite Ec in E. cbn [fst] in E. injection E as <- <- <-.
+      destruct (add_ip_spec _ _ _ _ _ _ Hok Ec) as (Hce & Hcr & _ & HCc).
+      assert (He : entries (lb Lc) = entries (lb L)) by congruence.
+      assert (Hr : repl (lb Lc) = repl (lb L)) by congruence.
+      split; [split|].
+      * destruct HS. constructor; rewrite ?He, ?Hr; auto.
+        unfold trecs in *. rewrite He, Hr. assumption.
+      * eapply CS_ext; [|exact HCc]. intros k. cbn beta.
+        pose proof (cntr_in k _ _ Hin) as Hle. unfold n_ip in *.
+        unfold trecs. rewrite He, Hr. fold (trecs (lb L)). lia.
+      * rewrite He. split; [reflexivity|]. split; [exact Hr|discriminate].
+  - (* same address *)
+    assert (Hsame : r_ip nr = n_ip n).
+    { apply ip_eqb_eq. destruct (ip_eqb (r_ip nr) (n_ip n)); [reflexivity|discriminate]. }
+    cbn [negb orb] in E.
+    destruct (negb (r_udp nr =? r_udp (n_rec n))); injection E as <- <- <-;
+      rewrite Hm; cbn [set_entries lb entries repl].
+    + destruct (replace_entry s i (lb L) l1 n l2 (mkT nr (n_tok n) 1 (n_checks n) false)
+                  (repl (lb L)) (bips (lb L)) HS Hl) as [HS' Hc];
+        [reflexivity|unfold n_id; cbn [n_rec]; symmetry; exact Hp
+        |unfold n_ip; cbn [n_rec]; rewrite Hsame; exact Hadd_old|cbn; lia|].
+      split; [split; [exact HS'|]|].
+      * apply (LInv_set_entries_CS L). eapply CS_ext; [|exact HC].
+        intros k. cbn beta. unfold set_entries. cbn [lb]. specialize (Hc k). unfold n_ip in *. cbn [n_rec] in Hc.
+        rewrite Hsame in Hc. lia.
+      * rewrite Hl, !app_length. cbn [length]. split; [reflexivity|]. split; [reflexivity|discriminate].
+    + destruct (replace_entry s i (lb L) l1 n l2 (mkT nr (n_tok n) (n_rl n) (n_checks n) (n_live n))
+                  (repl (lb L)) (bips (lb L)) HS Hl) as [HS' Hc];
+        [reflexivity|unfold n_id; cbn [n_rec]; symmetry; exact Hp
+        |unfold n_ip; cbn [n_rec]; rewrite Hsame; exact Hadd_old
+        |cbn [n_rl]; apply (bs_rl_e _ _ _ HS); rewrite Hl; apply in_or_app; right; left; reflexivity|].
+      split; [split; [exact HS'|]|].
+      * apply (LInv_set_entries_CS L). eapply CS_ext; [|exact HC].
+        intros k. cbn beta. unfold set_entries. cbn [lb]. specialize (Hc k). unfold n_ip in *. cbn [n_rec] in Hc.
+        rewrite Hsame in Hc. lia.
+      * rewrite Hl, !app_length. cbn [length]. split; [reflexivity|]. split; [reflexivity|discriminate].
+Qed.
+
+(* ================= touching fields that are not part of the record ================= *)
+
+Lemma map_first_rec (p : tnode -> bool) (f : tnode -> tnode) l :
+  (forall x, n_rec (f x) = n_rec x) -> map n_rec (map_first p f l) = map n_rec l.
+Proof.
+  intros H. induction l as [|x l IH]; [reflexivity|]. cbn [map_first].
+  destruct (p x); cbn [map]; [rewrite H|rewrite IH]; reflexivity.
+Qed.
+
+Lemma map_first_in {A} (p : A -> bool) f l y :
+  In y (map_first p f l) -> In y l \/ exists x, In x l /\ y = f x.
+Proof.
+  induction l as [|x l IH]; [intros []|]. cbn [map_first]. destruct (p x).
+  - intros [<-|H]; [right; exists x; split; [left|]; reflexivity|left; right; exact H].
+  - intros [<-|H]; [left; left; reflexivity|].
+    destruct (IH H) as [H'|(z & Hz & ->)]; [left; right; exact H'|right; exists z; split; [right|]; auto].
+Qed.
+
+Lemma map_first_length {A} (p : A -> bool) f l : length (map_first p f l) = length l.
+Proof.
+  induction l as [|x l IH]; [reflexivity|]. cbn [map_first]. destruct (p x); cbn [length]; auto.
+Qed.
+
+Lemma BS_same s i b b' :
+  entries b' = entries b -> repl b' = repl b -> BS s i b -> BS s i b'.
+Proof.
+  intros He Hr HS. destruct HS. constructor; unfold trecs in *; rewrite ?He, ?Hr; auto.
+Qed.
+
+Lemma LInv_touch s i rest L p f :
+  LInv s i rest L -> (forall x, n_rec (f x) = n_rec x) -> (forall x, n_rl x <> 0 -> n_rl (f x) <> 0) ->
+  LInv s i rest (set_entries L (map_first p f (entries (lb L)))).
+Proof.
+  intros [HS HC] Hrec Hrl.
+  assert (HT : trecs (lb (set_entries L (map_first p f (entries (lb L))))) = trecs (lb L)).
+  { unfold trecs, set_entries. cbn [lb entries repl]. rewrite map_first_rec by exact Hrec. reflexivity. }
+  split.
+  - destruct HS. constructor; rewrite ?HT; unfold set_entries; cbn [lb entries repl];
+      rewrite ?map_first_length; auto.
+    intros y Hy. destruct (map_first_in _ _ _ _ Hy) as [H|(x & Hx & ->)]; auto.
+  - apply (LInv_set_entries_CS L). eapply CS_ext; [|exact HC]. intros k. rewrite HT. reflexivity.
+Qed.
+
+(* ================= addReplacement ================= *)
+
+Lemma add_replacement_spec s i rest L r tok :
+  LInv s i rest L -> bidx s (r_id r) = i -> r_id r <> s ->
+  find_first (has_id (r_id r)) (entries (lb L)) = None ->
+  (16 <= length (entries (lb L)))%nat ->
+  LInv s i rest (add_replacement L r tok).
+Proof.
+  intros [HS HC] Hi Hs Hnf Hfull. unfold add_replacement.
+  destruct (contains_id (repl (lb L)) (r_id r)) eqn:Ec; [split; assumption|].
+  destruct (add_ip L (r_ip r)) as [L1 ok] eqn:Ea.
+  destruct (add_ip_spec _ _ _ _ _ _ HC Ea) as (He & Hr & Hok).
+  destruct ok; cbn [negb].
+  2:{ split; [eapply BS_same; eauto|]. eapply CS_ext; [|exact Hok].
+      intros k. unfold trecs. rewrite He, Hr. reflexivity. }
+  destruct Hok as [Hadd HC1].
+  set (wn := mkT r tok 0 0 false).
+  assert (Hnotin : ~ In (r_id r) (map r_id (trecs (lb L)))).
+  { unfold trecs. rewrite map_app. intros H. apply in_app_or in H. destruct H as [H|H]; revert H.
+    - apply not_in_ids. apply find_first_none. exact Hnf.
+    - apply not_in_ids. apply contains_id_false. exact Ec. }
+  assert (Hok : rec_ok s i r) by (unfold rec_ok; auto).
+  unfold push_node. rewrite Hr.
+  destruct (Nat.ltb (length (repl (lb L))) max_replacements) eqn:Elen.
+  - (* room in the replacement list *)
+    unfold set_repl. cbn [lb].
+    assert (P : Permutation (trecs (mkB (entries (lb L1)) (wn :: repl (lb L)) (bips (lb L1))))
+                            (r :: trecs (lb L))).
+    { unfold trecs. cbn [entries repl map]. rewrite He. symmetry. apply Permutation_middle. }
+    split.
+    + constructor; cbn [lb entries repl].
+      * rewrite He. apply (bs_len_e _ _ _ HS).
+      * cbn [length]. unfold max_replacements in Elen. apply Nat.ltb_lt in Elen. lia.
+      * eapply bag_perm; [symmetry; exact P|]. apply bag_insert; [apply (bs_bag _ _ _ HS)|exact Hok|exact Hnotin].
+      * rewrite He. intros H. lia.
+      * rewrite He. apply (bs_rl_e _ _ _ HS).
+      * intros x [<-|Hx]; [reflexivity|apply (bs_rl_r _ _ _ HS); exact Hx].
+    + apply CS_intro; [apply HC1|apply HC1|]. intros k. cbn [lb lt bips].
+      rewrite (cntr_perm k _ _ P). cbn [cntr]. destruct HC1 as (_ & _ & Hg). destruct (Hg k). lia.
+  - (* the oldest replacement is evicted and its address released *)
+    unfold max_replacements in Elen. apply Nat.ltb_ge in Elen.
+    destruct (last_opt_some (repl (lb L))) as [x Hx]; [intros H; rewrite H in Elen; cbn in Elen; lia|].
+    rewrite Hx. pose proof (last_opt_split _ _ Hx) as Hsplit.
+    set (rl := removelast (repl (lb L))) in *.
+    assert (Hlen : length (repl (lb L)) = S (length rl)).
+    { rewrite Hsplit, app_length. cbn [length]. lia. }
+    set (X := map n_rec (entries (lb L)) ++ map n_rec rl).
+    assert (P1 : Permutation (trecs (lb L)) (n_rec x :: X)).
+    { unfold trecs, X. rewrite Hsplit, map_app. cbn [map]. rewrite app_assoc.
+      symmetry. apply Permutation_cons_append. }
+    assert (P2 : Permutation (trecs (mkB (entries (lb L1)) (wn :: rl) (bips (lb L1)))) (r :: X)).
+    { unfold trecs, X. cbn [entries repl map]. rewrite He. symmetry. apply Permutation_middle. }
+    assert (Hxin : In (n_rec x) (trecs (lb L))).
+    { eapply Permutation_in; [symmetry; exact P1|left; reflexivity]. }
+    assert (HC2 : CS (set_repl L1 (wn :: rl)) (fun k => cntr k (trecs (lb L)) + ipw (r_ip r) k) rest) by exact HC1.
+    destruct (remove_ip_spec _ (n_ip x) _ rest HC2) as (He3 & Hr3 & HC3).
+    { intros k. pose proof (cntr_in k _ _ Hxin). unfold n_ip. lia. }
+    cbn [set_repl lb entries repl] in He3, Hr3.
+    assert (HT : trecs (lb (remove_ip (set_repl L1 (wn :: rl)) (n_ip x)))
+                 = trecs (mkB (entries (lb L1)) (wn :: rl) (bips (lb L1)))).
+    { unfold trecs. rewrite He3, Hr3. reflexivity. }
+    destruct (bag_delete s i _ _ (bag_perm _ _ _ _ P1 (bs_bag _ _ _ HS))) as (HX & _ & _).
+    split.
+    + constructor; rewrite ?HT, ?He3, ?Hr3.
+      * rewrite He. apply (bs_len_e _ _ _ HS).
+      * cbn [length]. pose proof (bs_len_r _ _ _ HS). lia.
+      * eapply bag_perm; [symmetry; exact P2|]. apply bag_insert; [exact HX|exact Hok|].
+        intros H. apply Hnotin. eapply Permutation_in; [symmetry; apply Permutation_map; exact P1|].
+        cbn [map]. right. exact H.
+      * rewrite He. intros H. lia.
+      * rewrite He. apply (bs_rl_e _ _ _ HS).
+      * intros y [<-|Hy]; [reflexivity|]. apply (bs_rl_r _ _ _ HS). rewrite Hsplit.
+        apply in_or_app. left. exact Hy.
+    + eapply CS_ext; [|exact HC3]. intros k. cbn beta. rewrite HT.
+      rewrite (cntr_perm k _ _ P2), (cntr_perm k _ _ P1). cbn [cntr]. unfold n_ip. lia.
+Qed.
+
+(* ================= handleAddNode ================= *)
+
+Lemma handle_add_node_l_spec s i rest initd L r tok inb fl L' ok :
+  LInv s i rest L -> bidx s (r_id r) = i ->
+  handle_add_node_l s initd L r tok inb fl = (L', ok) -> LInv s i rest L'.
+Proof.
+  intros HI Hi E. unfold handle_add_node_l in E.
+  destruct (r_id r =? s) eqn:Es; [injection E as <- <-; exact HI|].
+  assert (Hs : r_id r <> s) by lia.
+  destruct (inb && negb initd); [injection E as <- <-; exact HI|].
+  destruct (bump_in_bucket L r inb) as [[L1 found] ch] eqn:Eb.
+  destruct (bump_spec _ _ _ _ _ _ _ _ _ HI Eb) as (HI1 & _ & _ & Hnf).
+  destruct found; [injection E as <- <-; exact HI1|].
+  destruct (Hnf eq_refl) as [-> Hnone]. clear Hnf HI1.
+  destruct (Nat.leb bucket_size (length (entries (lb L)))) eqn:Efull.
+  { injection E as <- <-. apply add_replacement_spec; auto.
+    unfold bucket_size in Efull. apply Nat.leb_le in Efull. exact Efull. }
+  unfold bucket_size in Efull. apply Nat.leb_gt in Efull.
+  destruct HI as [HS HC].
+  pose proof (bs_nonfull _ _ _ HS Efull) as Hrepl.
+  destruct (add_ip L (r_ip r)) as [L2 ok2] eqn:Ea.
+  destruct (add_ip_spec _ _ _ _ _ _ HC Ea) as (He & Hr & Hok).
+  destruct ok2; cbn [negb] in E; injection E as <- <-.
+  2:{ split; [eapply BS_same; eauto|]. eapply CS_ext; [|exact Hok].
+      intros k. unfold trecs. rewrite He, Hr. reflexivity. }
+  destruct Hok as [Hadd HC2].
+  set (wn := mkT r tok 1 (if fl then 1 else 0) fl).
+  rewrite He, Hr, Hrepl. cbn [delete_node filter].
+  assert (P : Permutation (trecs (mkB (entries (lb L) ++ [wn]) [] (bips (lb L2)))) (r :: trecs (lb L))).
+  { unfold trecs. cbn [entries repl map]. rewrite Hrepl, map_app. cbn [map]. rewrite !app_nil_r.
+    symmetry. apply Permutation_cons_append. }
+  split.
+  - constructor; cbn [lb entries repl].
+    + rewrite app_length. cbn [length]. lia.
+    + cbn [length]. lia.
+    + eapply bag_perm; [symmetry; exact P|]. apply bag_insert; [apply (bs_bag _ _ _ HS)|unfold rec_ok; auto|].
+      unfold trecs. rewrite Hrepl. cbn [map]. rewrite app_nil_r. apply not_in_ids.
+      apply find_first_none. exact Hnone.
+    + reflexivity.
+    + intros x Hx. apply in_app_or in Hx. destruct Hx as [Hx|[<-|[]]]; [apply (bs_rl_e _ _ _ HS); exact Hx|cbn; lia].
+    + intros x [].
+  - apply CS_intro; [apply HC2|apply HC2|]. intros k. cbn [lb lt bips].
+    rewrite (cntr_perm k _ _ P). cbn [cntr]. destruct HC2 as (_ & _ & Hg). destruct (Hg k). lia.
+Qed.
+
+(* ================= deleteInBucket ================= *)
+
+Lemma delete_in_bucket_spec s i rest L id rnd :
+  LInv s i rest L ->
+  exists L' o, delete_in_bucket L id rnd = Some (L', o) /\ LInv s i rest L'.
+Proof.
+  intros [HS HC]. unfold delete_in_bucket.
+  destruct (find_first (has_id id) (entries (lb L))) as [n|] eqn:Ef.
+  2:{ eexists _, _. split; [reflexivity|split; assumption]. }
+  destruct (find_first_split _ _ _ Ef) as (l1 & l2 & Hl & _ & _ & Hrm & _).
+  rewrite Hrm.
+  assert (Hnin : In n (entries (lb L))) by (rewrite Hl; apply in_or_app; right; left; reflexivity).
+  assert (Hin : In (n_rec n) (trecs (lb L))).
+  { unfold trecs. apply in_or_app. left. apply in_map. exact Hnin. }
+  assert (HC0 : CS (set_entries L (l1 ++ l2)) (fun k => cntr k (trecs (lb L))) rest) by exact HC.
+  destruct (remove_ip_spec _ (n_ip n) _ rest HC0 (fun k => cntr_in k _ _ Hin)) as (He & Hr & HC1).
+  cbn [set_entries lb entries repl] in He, Hr.
+  set (L1 := remove_ip (set_entries L (l1 ++ l2)) (n_ip n)) in *.
+  pose proof (bs_rl_e _ _ _ HS n Hnin) as Hrl.
+  replace (n_rl n =? 0) with false by lia.
+  assert (P1 : Permutation (trecs (lb L)) (n_rec n :: map n_rec (l1 ++ l2) ++ map n_rec (repl (lb L)))).
+  { unfold trecs. rewrite Hl, !map_app. cbn [map]. apply perm_mid. }
+  destruct (bag_delete s i _ _ (bag_perm _ _ _ _ P1 (bs_bag _ _ _ HS))) as (HX & _ & _).
+  assert (Hlen : length (entries (lb L)) = S (length (l1 ++ l2))).
+  { rewrite Hl, !app_length. cbn [length]. lia. }
+  rewrite Hr. destruct (repl (lb L)) as [|x xs] eqn:Erepl.
+  - (* no replacement *)
+    eexists _, _. split; [reflexivity|].
+    assert (HT : trecs (lb L1) = map n_rec (l1 ++ l2) ++ map n_rec []).
+    { unfold trecs. rewrite He, Hr. reflexivity. }
+    split.
+    + constructor; rewrite ?HT, ?He, ?Hr.
+      * pose proof (bs_len_e _ _ _ HS). lia.
+      * cbn [length]. lia.
+      * exact HX.
+      * reflexivity.
+      * intros y Hy. apply (bs_rl_e _ _ _ HS). rewrite Hl. apply in_app_or in Hy.
+        apply in_or_app. destruct Hy; [left|right; right]; assumption.
+      * intros y [].
+    + eapply CS_ext; [|exact HC1]. intros k. cbn beta. rewrite HT, (cntr_perm k _ _ P1).
+      cbn [cntr]. unfold n_ip. lia.
+  - (* a replacement is promoted *)
+    set (R := x :: xs) in *.
+    assert (Hne : length R <> O) by (cbn; lia).
+    destruct (take_nth_some (N.to_nat (rnd mod N.of_nat (length R))) R) as (rp & rest' & Et).
+    { pose proof (N.mod_lt rnd (N.of_nat (length R))). lia. }
+    rewrite Et. eexists _, _. split; [reflexivity|].
+    destruct (take_nth_split _ _ _ _ Et) as (a & b & Hab & ->).
+    cbn [lb lt entries repl bips]. rewrite He.
+    set (b' := mkB ((l1 ++ l2) ++ [set_rl 1 rp]) (a ++ b) (bips (lb L1))).
+    assert (P2 : Permutation (map n_rec (l1 ++ l2) ++ map n_rec R) (trecs b')).
+    { unfold trecs, b'. cbn [entries repl]. rewrite Hab, !map_app. cbn [map set_rl n_rec].
+      rewrite <- !app_assoc. apply Permutation_app_head. apply Permutation_app_head. cbn [app].
+      symmetry. apply Permutation_middle. }
+    pose proof (bs_len_r _ _ _ HS) as HlenR. rewrite Erepl in HlenR.
+    split.
+    + constructor; unfold b'; cbn [lb entries repl].
+      * rewrite app_length. cbn [length]. pose proof (bs_len_e _ _ _ HS). lia.
+      * rewrite Hab, app_length in HlenR. cbn [length] in HlenR. rewrite app_length. lia.
+      * eapply bag_perm; [exact P2|exact HX].
+      * rewrite app_length. cbn [length]. intros H.
+        assert (H16 : (length (entries (lb L)) < 16)%nat) by lia.
+        apply (bs_nonfull _ _ _ HS) in H16. rewrite Erepl in H16. discriminate.
+      * intros y Hy. apply in_app_or in Hy. destruct Hy as [Hy|[<-|[]]]; [|cbn; lia].
+        apply (bs_rl_e _ _ _ HS). rewrite Hl. apply in_app_or in Hy.
+        apply in_or_app. destruct Hy; [left|right; right]; assumption.
+      * intros y Hy. apply (bs_rl_r _ _ _ HS). rewrite Erepl. fold R. rewrite Hab. apply in_app_or in Hy.
+        apply in_or_app. destruct Hy; [left|right; right]; assumption.
+    + apply CS_intro; [apply HC1|apply HC1|]. intros k. cbn [lb lt bips].
+      fold b'. rewrite <- (cntr_perm k _ _ P2).
+      destruct HC1 as (_ & _ & Hg). destruct (Hg k) as [G1 G2]. rewrite G1, G2.
+      rewrite (cntr_perm k _ _ P1). cbn [cntr]. unfold n_ip. lia.
+Qed.
